@@ -891,3 +891,299 @@ func (c *Ctx) mustReachOnEdges(r *Report, rule string, fn *ssa.Function, edges [
 		r.viol(rule, name, cons, c.Pos(anchor.Pos()), why+": the result is never branched on")
 	}
 }
+
+// ---------------------------------------------------------------------------------------
+// additional structural clauses (added after the first round of seeded defects)
+
+func init() {
+	register("C27", "", ruleC27d)
+	register("C28", "", ruleC28c, ruleC28d)
+	register("C25", "", ruleC25b)
+}
+
+// ruleC27d: gradual policy — a failed probe of a down replica restarts the consecutive-success count-down on every
+// path: from the probe call, every path to an exit on which the probe connection is nil and the node is down passes
+// RefreshCoolDownCount.
+func ruleC27d(c *Ctx, r *Report) {
+	const rule = "MP-C27d"
+	r.floor(rule, 1)
+	sf := c.statusFacts()
+	fn := c.backendMethod("Slice", "checkWithGradualRecovery")
+	refresh := c.backendMethod("GradualRecoveryStrategy", "RefreshCoolDownCount")
+	isDown := c.backendMethod("NodeInfo", "IsStatusDown")
+	if fn == nil || refresh == nil || isDown == nil || sf.probe == nil {
+		r.undecided(rule, "(*backend.Slice).checkWithGradualRecovery", "anchor", "-", "anchors not found")
+		return
+	}
+	name := c.FuncName(fn)
+	for _, ci := range callsIn(fn, func(cc *ssa.CallCommon) bool { return callsFunc(cc, sf.probe) }) {
+		conn := extractOf(ci.(ssa.Value), 0)
+		if conn == nil {
+			r.undecided(rule, name, "probe-result", c.Pos(ci.Pos()), "probe connection unused")
+			continue
+		}
+		prune := map[[2]int]bool{}
+		for _, e := range nilEdges(conn) {
+			if !e.Val { // conn != nil: probe succeeded, nothing to reset
+				prune[[2]int{e.If.Block().Index, e.Succ}] = true
+			}
+		}
+		for _, di := range callsIn(fn, func(cc *ssa.CallCommon) bool { return callsFunc(cc, isDown) }) {
+			for _, e := range condEdges(di.(*ssa.Call)) {
+				if !e.Val { // node is up: no count-down running
+					prune[[2]int{e.If.Block().Index, e.Succ}] = true
+				}
+			}
+		}
+		// the conn==nil test must be met before any exit: an exit reached without having branched on conn at all is a miss
+		branched := map[*ssa.BasicBlock]bool{}
+		for _, e := range nilEdges(conn) {
+			branched[e.If.Block()] = true
+		}
+		exits := searchExits(fn, ci, nil, SearchOpts{
+			Stop:   func(in ssa.Instruction) bool { cc := callCommon(in); return cc != nil && callsFunc(cc, refresh) },
+			EdgeOK: func(b *ssa.BasicBlock, i int) bool { return !prune[[2]int{b.Index, i}] },
+		})
+		if len(exits) == 0 {
+			r.ok(rule, name, "failed-probe->RefreshCoolDownCount", c.Pos(ci.Pos()), "every path on which the probe failed for a down replica restarts the count-down before the function can return")
+		} else {
+			r.viol(rule, name, "failed-probe->RefreshCoolDownCount", c.Pos(ci.Pos()), "the checker can return after a failed probe of a down replica without restarting the consecutive-success count-down: the replica comes back after `penalty` successes in total instead of `penalty` consecutive ones", c.pathStrings(exits[0])...)
+		}
+		_ = branched
+	}
+}
+
+// ruleC28c: a probe round can only complete (and the last-checked time advance) after a probe call succeeded: in
+// checkInstanceStatus every path through one loop iteration to the back edge, and every success return, crosses the
+// nil-error edge of PingWithTimeout/ExecuteWithTimeout.
+func ruleC28c(c *Ctx, r *Report) {
+	const rule = "MP-C28c"
+	r.floor(rule, 2)
+	fn := c.Func("backend", "checkInstanceStatus")
+	ping := c.pcMethod("PingWithTimeout")
+	exec := c.pcMethod("ExecuteWithTimeout")
+	if fn == nil || ping == nil || exec == nil {
+		r.undecided(rule, "backend.checkInstanceStatus", "anchor", "-", "anchors not found")
+		return
+	}
+	name := c.FuncName(fn)
+	okEdges := map[[2]int]bool{}
+	var okList []CondEdge
+	for _, ci := range callsIn(fn, func(cc *ssa.CallCommon) bool { return callsIfaceMethod(cc, ping) || callsIfaceMethod(cc, exec) }) {
+		call, ok := ci.(*ssa.Call)
+		if !ok {
+			continue
+		}
+		for _, e := range errNilEdgesOfCall(call) {
+			if e.Val {
+				okEdges[[2]int{e.If.Block().Index, e.Succ}] = true
+				okList = append(okList, e)
+			}
+		}
+	}
+	if len(okList) == 0 {
+		r.undecided(rule, name, "probe-calls", c.Pos(fn.Pos()), "no tested probe call found")
+		return
+	}
+	// loop iterations
+	n := 0
+	for _, b := range fn.Blocks {
+		for _, h := range b.Succs {
+			if !h.Dominates(b) {
+				continue
+			}
+			// back edge b -> h: paths from h's body successor(s) to b
+			n++
+			miss := false
+			first := h.Instrs[0]
+			for i, s := range h.Succs {
+				if !blockReachable(s, b) {
+					continue // loop exit
+				}
+				_ = i
+				searchExits(fn, nil, s, SearchOpts{
+					Stop: func(in ssa.Instruction) bool {
+						if in == first {
+							miss = true
+							return true
+						}
+						return false
+					},
+					EdgeOK: func(bb *ssa.BasicBlock, k int) bool { return !okEdges[[2]int{bb.Index, k}] },
+				})
+			}
+			cons := fmt.Sprintf("loop#%d:iteration-needs-a-passed-probe", n)
+			if !miss {
+				r.ok(rule, name, cons, c.Pos(first.Pos()), "an iteration of the probe loop completes only after PingWithTimeout/ExecuteWithTimeout returned without error")
+			} else {
+				r.viol(rule, name, cons, c.Pos(first.Pos()), "an iteration of the probe loop can complete without any probe call having succeeded: a node whose probes all fail this way is reported healthy and its last-checked time keeps advancing")
+			}
+		}
+	}
+	k := 0
+	for _, ret := range returnsOf(fn) {
+		isNil, known := returnsNilError(ret)
+		if known && !isNil {
+			continue
+		}
+		k++
+		cons := fmt.Sprintf("success-return#%d", k)
+		if h := loopExitHeader(fn, ret.Block()); h != nil && atLeastOneIteration(h) {
+			r.ok(rule, name, cons, c.Pos(exitPos(ret)), "reached only after the probe loop ran at least once (constant first test); every completed iteration passed a probe")
+			continue
+		}
+		if edgesDominate(fn, okList, ret.Block()) {
+			r.ok(rule, name, cons, c.Pos(exitPos(ret)), "dominated by a probe call that returned without error")
+		} else {
+			r.viol(rule, name, cons, c.Pos(exitPos(ret)), "the probe can report success on a path where no probe call succeeded")
+		}
+	}
+	if n == 0 {
+		r.undecided(rule, name, "loop", c.Pos(fn.Pos()), "probe loop not found")
+	}
+}
+
+// ruleC28d: a failed probe alone never counts as replication lag: checkSlaveSyncStatus answers false only for a
+// connection that exists (every possibly-false return is dominated by pc != nil).
+func ruleC28d(c *Ctx, r *Report) {
+	const rule = "MP-C28d"
+	r.floor(rule, 1)
+	fn := c.Func("backend", "checkSlaveSyncStatus")
+	if fn == nil || len(fn.Params) == 0 {
+		r.undecided(rule, "backend.checkSlaveSyncStatus", "anchor", "-", "not found")
+		return
+	}
+	name := c.FuncName(fn)
+	pc := fn.Params[0]
+	var nonNil []CondEdge
+	for _, e := range nilEdges(pc) {
+		if !e.Val {
+			nonNil = append(nonNil, e)
+		}
+	}
+	n := 0
+	for _, ret := range returnsOf(fn) {
+		vals, zero := retValues(ret, 0)
+		maybeFalse := zero
+		for _, v := range vals {
+			if b, ok := constBool(v); !ok || !b {
+				maybeFalse = true
+			}
+		}
+		if !maybeFalse {
+			continue
+		}
+		n++
+		cons := fmt.Sprintf("return-not-alive#%d", n)
+		if edgesDominate(fn, nonNil, ret.Block()) {
+			r.ok(rule, name, cons, c.Pos(exitPos(ret)), "'not in sync' is only answered for an existing probe connection")
+		} else {
+			r.viol(rule, name, cons, c.Pos(exitPos(ret)), "'not in sync' can be answered when the probe produced no connection: a single failed probe marks the replica down before the down-after period")
+		}
+	}
+	if n == 0 {
+		r.undecided(rule, name, "return-not-alive", c.Pos(fn.Pos()), "no possibly-false return")
+	}
+}
+
+// ruleC25b: the only way to a replica's pool is through the selector: (*balancer).next is called only by
+// getNodeFromBalancer, and every node handed to getConnWithFuse is the result of getNodeFromBalancer.
+func ruleC25b(c *Ctx, r *Report) {
+	const rule = "WM-C25b"
+	r.floor(rule, 2)
+	next := c.backendMethod("balancer", "next")
+	sel := c.backendMethod("Slice", "getNodeFromBalancer")
+	withFuse := c.backendMethod("Slice", "getConnWithFuse")
+	if next == nil || sel == nil || withFuse == nil {
+		r.undecided(rule, "backend", "anchor", "-", "anchors not found")
+		return
+	}
+	for _, s := range c.callSites(func(cc *ssa.CallCommon) bool { return callsFunc(cc, next) }) {
+		if s.Fn == sel {
+			r.ok(rule, c.FuncName(s.Fn), "calls:balancer.next", c.Pos(s.In.Pos()), "the selector (checks IsStatusUp on what it returns)")
+		} else {
+			r.viol(rule, c.FuncName(s.Fn), "calls:balancer.next", c.Pos(s.In.Pos()), "a queue position is taken from the balancer outside getNodeFromBalancer: the node it names is used without the status check")
+		}
+	}
+	for _, s := range c.callSites(func(cc *ssa.CallCommon) bool { return callsFunc(cc, withFuse) }) {
+		cc := callCommon(s.In)
+		node := cc.Args[len(cc.Args)-1]
+		ok := true
+		for _, l := range phiLeaves(node) {
+			ex, isEx := l.(*ssa.Extract)
+			if !isEx || ex.Index != 0 {
+				ok = false
+				continue
+			}
+			call, isCall := ex.Tuple.(*ssa.Call)
+			if !isCall || !callsFunc(&call.Call, sel) {
+				ok = false
+			}
+		}
+		cons := "node-of:getConnWithFuse@" + branchLabel(c, s.In)
+		if ok {
+			r.ok(rule, c.FuncName(s.Fn), cons, c.Pos(s.In.Pos()), "the node whose pool is used is the selector's result")
+		} else {
+			r.viol(rule, c.FuncName(s.Fn), cons, c.Pos(s.In.Pos()), "a replica's pool is used for a node that did not come from getNodeFromBalancer (no status check)")
+		}
+	}
+}
+
+// loopExitHeader: block b lies after a loop (it is dominated by a loop header but is not inside that loop): returns
+// the header.
+func loopExitHeader(fn *ssa.Function, b *ssa.BasicBlock) *ssa.BasicBlock {
+	for _, x := range fn.Blocks {
+		for _, h := range x.Succs {
+			if h.Dominates(x) && h.Dominates(b) && h != b && !blockReachable(b, h) {
+				return h
+			}
+		}
+	}
+	return nil
+}
+
+// atLeastOneIteration: the loop header's test is a comparison of an induction phi (constant on the entry edge) with a
+// constant, and it is true on entry.
+func atLeastOneIteration(h *ssa.BasicBlock) bool {
+	iff, ok := h.Instrs[len(h.Instrs)-1].(*ssa.If)
+	if !ok {
+		return false
+	}
+	bo, ok := iff.Cond.(*ssa.BinOp)
+	if !ok {
+		return false
+	}
+	ph, ok := bo.X.(*ssa.Phi)
+	if !ok || ph.Block() != h {
+		return false
+	}
+	k, ok := constInt(bo.Y)
+	if !ok {
+		return false
+	}
+	for i, p := range h.Preds {
+		if h.Dominates(p) {
+			continue // back edge
+		}
+		c0, ok := constInt(ph.Edges[i])
+		if !ok {
+			return false
+		}
+		var t bool
+		switch bo.Op {
+		case token.LSS:
+			t = c0 < k
+		case token.LEQ:
+			t = c0 <= k
+		case token.NEQ:
+			t = c0 != k
+		default:
+			return false
+		}
+		// the true edge must enter the body
+		if !t {
+			return false
+		}
+	}
+	return true
+}
